@@ -88,11 +88,42 @@ class Ownership:
             if not changed:
                 break
 
-    def classify(self, st: Store) -> tuple[bool, str]:
+    def classify(self, st: Store) -> tuple[bool | None, str]:
         fr = self.fresh.get(st.fi.short)
         if fr is None:
             return True, "function not on the analysed graph"
-        return fr.store_ok(st)
+        ok, why = fr.store_ok(st)
+        if not ok:
+            unk = self._unmodelled_origin(st)
+            if unk:
+                return None, f"{why}; {unk}"
+        return ok, why
+
+    MODELLED = {"deepcopy", "model_copy", "clone", "DataFrame", "slice", "select", "with_columns", "filter", "sorted", "to_list",
+                "to_dicts", "str", "int", "float", "len", "range", "round", "min", "max", "sum", "join", "index", "to_native",
+                "list", "dict", "set", "tuple", "copy", "enumerate", "zip", "reversed", "items", "values", "keys", "get",
+                "_set_default", "getattr"}
+
+    def _unmodelled_origin(self, st: Store) -> str | None:
+        """the written object's root is a local bound only from calls the freshness analysis has no model for (neither a
+        repo function nor a known library operation): its ownership is unknown, not 'borrowed'"""
+        from .astmatch import assignments
+        root, _ = root_of(st.target)
+        if root is None:
+            return None
+        a = st.fi.node.args
+        if root.id in {x.arg for x in list(a.posonlyargs) + list(a.args) + list(a.kwonlyargs)} or root.id in ("self", "cls"):
+            return None
+        vals = assignments(st.fi.node).get(root.id, [])
+        if not vals:
+            return None
+        for v in vals:
+            if not isinstance(v, ast.Call):
+                return None
+            last = dotted(v.func).split(".")[-1]
+            if last in self.MODELLED or last in self.pm.classes or self.cg.resolve_call(st.fi, v):
+                return None
+        return f"{root.id} is the result of `{unparse(vals[0])[:50]}`, a call the ownership analysis does not model"
 
     def target_class(self, st: Store) -> str | None:
         return self.cg.expr_class(st.fi, st.target)
